@@ -603,9 +603,8 @@ func ParseContractFile(path string) (cf *ContractFile, err error) {
 			case "canon":
 				fc.Canon = append(fc.Canon, mustExpr(rest, where))
 			case "format":
-				i := strings.IndexByte(rest, ' ')
-				fc.FormatKind = rest[:i]
-				fc.Format = mustExpr(rest[i+1:], where)
+				fc.Format = mustExpr(rest, where)
+				fc.FormatKind = fc.Format.Name
 			case "assigns":
 				fc.Assigns = append(fc.Assigns, strings.Fields(strings.ReplaceAll(rest, ",", " "))...)
 			case "reads":
@@ -629,7 +628,7 @@ func ParseContractFile(path string) (cf *ContractFile, err error) {
 				fc.Holes = append(fc.Holes, h)
 			case "behavior":
 				r2, props := takeProps(rest)
-				bh = &Behavior{Name: strings.TrimSuffix(strings.TrimSpace(r2), ":"), Props: props, Ghosts: pendingGhosts}
+				bh = &Behavior{Name: strings.TrimSpace(strings.TrimSuffix(strings.TrimSpace(r2), ":")), Props: props, Ghosts: pendingGhosts}
 				pendingGhosts = nil
 				lp = nil
 				fc.Behaviors = append(fc.Behaviors, bh)
